@@ -246,8 +246,27 @@ def driftLine (args0 impl : List String) : String :=
     | ["none"] => some none
     | [x] => x.toInt?.map some
     | _ => none
+  -- a decimal fraction `a.b`: the option takes whole ppm, so it is rejected; if a build accepts it, what
+  -- it publishes must still be exactly 1000 times the value (C19), never a truncated rate
+  let frac : Option (Nat × Nat) := match args with
+    | [x] => (match x.splitOn "." with
+      | [a, b] => (do
+          let an ← a.toNat?
+          let bn ← b.toNat?
+          if b.length = 0 ∨ b.length > 18 then none else some (an * 10 ^ b.length + bn, 10 ^ b.length))
+      | _ => none)
+    | _ => none
   match arg with
-  | none => "bad-op | |"
+  | none =>
+    (match frac with
+     | some (num, den) =>
+       let ok := match impl with
+         | ["ok", p] => (match p.toNat? with | some pn => decide (pn * den = 1000 * num) | none => false)
+         | "refused" :: _ => true
+         | "rejected" :: _ => true
+         | _ => false
+       s!"rejected | {verdict "C19" true ok} | fractional"
+     | none => "bad-op | |")
   | some a =>
     if (match a with | some r => decide (r < 0 ∨ r ≥ 4294967296) | none => false) then
       s!"rejected | C19:na | outOfRange"
@@ -489,6 +508,7 @@ def processLine (line : String) : String :=
     "exited fast | " ++ (if ok then "C15:holds" else "C15:FAILS") ++ " | release," ++ mode
   | "open" :: args => (DriverH.line "open" args impl).getD "bad-op | |"
   | "open0" :: args => (DriverH.line "open" args impl).getD "bad-op | |"
+  | "openu" :: args => (DriverH.line "open" args impl).getD "bad-op | |"   -- as an unprivileged process, no lockable memory
   | "seg" :: args => (DriverH.line "seg" args impl).getD "bad-op | |"
   | "snap" :: args => (DriverH.line "snap" args impl).getD "bad-op | |"
   | "sandwich" :: args => (DriverH.line "sandwich" args impl).getD "bad-op | |"
